@@ -220,6 +220,17 @@ class Interp:
         )
         raise CutPath()
 
+    def hidden_state(self, name, node=None):
+        self.ctx.clause_kind = "frame"
+        self.ctx.oblige(
+            f"{getattr(self, 'task_name', '')}.frame.instance-state".lstrip("."),
+            z3.BoolVal(False),
+            kind="frame",
+            site=self.site(node) if node is not None else None,
+            meta={"global": name, "writer": self.stack[-1].name if self.stack else None},
+        )
+        raise CutPath()
+
     # ------------------------------------------------------------ helpers
     def is_interpreted_func(self, f):
         if not isinstance(f, types.FunctionType):
